@@ -85,6 +85,8 @@ def _layout(rng):
 
 
 def _size(rng):
+    if rng.random() < 0.004:
+        return int(rng.choice([4097, 5000, 9000]))  # thousands of droplets (a foam, a long track)
     return int(rng.choice([0, 1, 1, 2, 2, 3, 7, 12, 13]))
 
 
@@ -127,6 +129,10 @@ def gen(rng, kind, tier):
     case = _gen(rng, kind, tier)
     if case is not None and rng.random() < 0.12:
         case["overwrite"] = True  # the path already holds an earlier, longer collection of the same kind
+    elif case is not None and rng.random() < 0.15:
+        # file names without an HDF5 extension that contain a dot (a parameter value), next to a sibling file whose
+        # name differs only behind that dot
+        case["dotted_name"] = str(rng.choice(["phi0.25", "run_3.emulsions", "T1.5e-3", "a.b.c"]))
     if case is not None and case["type"] == "Emulsion" and rng.random() < 0.15:
         case["stale_dtype"] = True  # emulsion created empty for another droplet class and filled afterwards
     if case is not None and case["type"] in ("Emulsion", "EmulsionTimeCourse") and rng.random() < 0.15:
@@ -329,6 +335,12 @@ def run(case, rec):
 
     scratch = Path(os.environ.get("VERIF_SCRATCH") or "/tmp")
     path = str(scratch / f"c08_{os.getpid()}.h5")
+    sibling = None
+    if case.get("dotted_name"):
+        stem, _, tail = case["dotted_name"].rpartition(".")
+        path = str(scratch / f"c08_{os.getpid()}_{stem}.{tail}")
+        sibling = str(scratch / f"c08_{os.getpid()}_{stem}.{tail[::-1] + 'x'}")
+        rec.count("dotted_file_names")
     built = common.monitored(rec, "construct", build, case)
     homogeneous = all(is_homogeneous_members(ms) for ms in _all_members(case))
     if not built.ok:
@@ -369,6 +381,9 @@ def run(case, rec):
             rec.evaluated(nontrivial=nontrivial)
             return
         rec.check(snap(obj) == before, "write-does-not-modify", f"to_file changed the object; {label}")
+        if sibling is not None:
+            # another object is written to the sibling name before the first one is read back
+            common.monitored(rec, "to_file:sibling", droplets.Emulsion([droplets.SphericalDroplet([0.25], 1.0)]).to_file, sibling)
         r = common.monitored(rec, "from_file", type(obj).from_file, path)
         if not rec.check(r.ok, "readable",
                          f"to_file succeeded but from_file raised {common.exc_text(r.exc) if r.exc else ''}; {label}"):
@@ -383,10 +398,13 @@ def run(case, rec):
                       f"structurally identical, yet the package's == says {eq.result if eq.ok else eq.exc!r}; {label}")
         rec.evaluated(nontrivial=nontrivial)
     finally:
-        try:
-            os.remove(path)
-        except OSError:
-            pass
+        import glob
+
+        for f_ in [path] + ([sibling] if sibling else []) + glob.glob(str(scratch / f"c08_{os.getpid()}_*")):
+            try:
+                os.remove(f_)
+            except OSError:
+                pass
 
 
 def sentinels(rec):
